@@ -77,14 +77,27 @@ def main():
             else:
                 for c in checks:
                     for tier in ("quick", "thorough"):
-                        rcc, oc = sh("%s harness/check.py %s --tier %s" % (PY, c, tier), cwd=VERIF)
+                        # --no-build: the Lean side is unchanged by a seeded change, and no evidence may be written from a mutated tree
+                        # (C19's model is regenerated from the source by the translator: its run includes the build)
+                        rcc, oc = sh("%s harness/check.py %s --tier %s %s" % (PY, c, tier, "--no-evidence" if c == "C19" else "--no-build"), cwd=VERIF)
                         viol = [l for l in oc.splitlines() if l.startswith("VIOLATION")]
                         detected["%s/%s" % (c, tier)] = {"rc": rcc, "violation": viol[:1], "tail": oc.strip().splitlines()[-3:]}
-                        if rcc == 1:
+                        if rcc == 1 and viol:
                             break
+                if not any(v["rc"] == 1 and v["violation"] for v in detected.values()):
+                    # missed by the named checks: which other properties' quick checks report it? (run in parallel)
+                    import concurrent.futures
+                    others = ["C%02d" % i for i in range(1, 21) if "C%02d" % i not in checks]
+                    with concurrent.futures.ThreadPoolExecutor(max_workers=8) as ex:
+                        futs = {c: ex.submit(sh, "%s harness/check.py %s --tier quick --no-build" % (PY, c), VERIF) for c in others}
+                    for c, fu in futs.items():
+                        rcc, oc = fu.result()
+                        viol = [l for l in oc.splitlines() if l.startswith("VIOLATION")]
+                        if rcc == 1 and viol:
+                            detected["%s/quick" % c] = {"rc": rcc, "violation": viol[:1], "tail": oc.strip().splitlines()[-3:], "cross": True}
         finally:
             sh("git checkout -- .", cwd=REPO)
-        verdict["detected"] = any(v["rc"] == 1 for v in detected.values())
+        verdict["detected"] = any(v["rc"] == 1 and v["violation"] for v in detected.values())
         verdict["checks"] = detected
         print(json.dumps(verdict, indent=1)[:3000])
         if verdict.get("confirmed") is not False:
